@@ -25,6 +25,9 @@ structure DState where
   prev   : List (Nat × Option Nat)
   /-- branch-hit counters -/
   hits   : List (String × Nat)
+  /-- calls in the order their tokens were granted: the woken tasks resume (and dispatch) in that
+  order, as the event loop runs their wake-ups FIFO -/
+  granted : List Nat := []
 
 def DState.init (total : Nat) : DState :=
   { s := AnyioModel.Thread.Worker.init total, ncalls := 0, rets := [], lastJob := [], prev := [], hits := [] }
@@ -92,6 +95,7 @@ def fire (d : DState) (e : Ev) : Option (DState × Out) :=
         { d1 with prev := d1.prev ++ [(c, p)],
                   lastJob := (w, c) :: d.lastJob.filter (·.1 ≠ w) }
       | .resume c => { d1 with rets := d1.rets ++ [(c, outStr o)] }
+      | .tokenGranted c => { d1 with granted := d1.granted.filter (· ≠ c) ++ [c] }
       | _ => d1
     some (d2, o)
 
@@ -102,7 +106,10 @@ def internal (d : DState) : List Ev :=
   (cs.filter (fun c => d.s.cancelReq c &&
       (decide (d.s.pc c = .waitingToken) || (decide (d.s.pc c = .awaiting) && d.s.abandon c)))).map
     .deliver ++
-  cs.map .tokenGranted ++ cs.map .dispatch ++ cs.map .threadStart ++ cs.map .threadSkip
+  cs.map .tokenGranted ++
+  -- dispatch in grant order first (calls never granted through the queue keep index order)
+  d.granted.map .dispatch ++ (cs.filter (fun c => !d.granted.contains c)).map .dispatch ++
+  cs.map .threadStart ++ cs.map .threadSkip
 
 def fireFirst (d : DState) : List Ev → Option DState
   | [] => none
